@@ -132,6 +132,25 @@ class Threads(EngineBase):
         world = self.target_world(rng)
         ops = []
         n = rng.randrange(6, 26 if tier == "quick" else 50)
+        if rng.random() < 0.12:
+            # targeted prefix: a nested block (or as_dict()) inside an outer
+            # one is left normally or by an exception, then the outer one;
+            # whatever happened, the *next* block caches again
+            ops.append({"op": "enter"})
+            if rng.random() < 0.5:
+                ops.append({"op": "get", "m": rng.choice(STAT_GETTERS)})
+            ops.append({"op": "enter"})
+            if rng.random() < 0.5:
+                ops.append({"op": "get", "m": rng.choice(ALL_GETTERS)})
+            ops.append({"op": rng.choice(["exit_exc", "exit_exc", "exit"])})
+            ops.append({"op": rng.choice(["exit_exc", "exit"])})
+            if rng.random() < 0.4:
+                ops.append({"op": "ev", "ev": gen_change(rng)})
+            ops.append({"op": "enter"})
+            for _ in range(rng.randrange(2, 4)):
+                ops.append({"op": "get", "m": rng.choice(STAT_GETTERS)})
+            if rng.random() < 0.5:
+                ops.append({"op": "exit"})
         for _ in range(n):
             r = rng.random()
             if r < 0.14:
